@@ -440,7 +440,7 @@ def campaign(ck, prop, n, fixed=(), break_bias=False, workers=8):
 
 # ---------------------------------------------------------------------------------------------- watcher filter scenario (C16)
 
-def filter_scenario(rng, n_ops=10, tag='wf'):
+def filter_scenario(rng, n_ops=10, tag='wf', ops=None):
     """One target watching `src` with extensions [txt] (and one without filter watching `any`); random file operations of
     relevant and irrelevant kinds through the real inotify watcher. A relevant operation must start a run (we wait for it);
     an irrelevant one must not (the run count is unchanged after a quiet period)."""
@@ -507,9 +507,9 @@ def filter_scenario(rng, n_ops=10, tag='wf'):
                         'any_modify', 'any_create_tmpname_not', 'any_nonutf8', 'modify_md', 'modify_docs_md', 'modify', 'modify_md']
         irrelevant_ops = ['other_ext', 'tilde', 'swp', 'zinoma_dir', 'outside', 'dat_rename', 'any_tilde', 'any_swp', 'any_zinoma',
                           'docs_txt']
-        for _ in range(n_ops):
+        for opi in range(len(ops) if ops else n_ops):
             seq += 1
-            op = rng.choice(relevant_ops if rng.random() < 0.55 else irrelevant_ops)
+            op = ops[opi] if ops else rng.choice(relevant_ops if rng.random() < 0.55 else irrelevant_ops)
             before = (runs('filt'), runs('anyf'))
             target = None          # which target must run
             src = os.path.join(d, 'src')
